@@ -737,7 +737,8 @@ class CSSSerializer:
         """
         if rule.wellformed and self.prefs.keepUnknownAtRules:
             out = Out(self)
-            out.append(rule.atkeyword)
+            # (characters which came as unicode escapes are escaped again)
+            out.append('@' + helper.ident(rule.atkeyword[1:]))
 
             stacks = []
             for item in rule.seq:
@@ -1110,6 +1111,9 @@ class CSSSerializer:
             out = Out(self)
             if value.type in ('DIMENSION', 'NUMBER', 'PERCENTAGE'):
                 dim = value.dimension or ''
+                if dim and dim != '%':
+                    # a unit is a name
+                    dim = helper.ident(dim, hash_=True)
                 if value.value == int(value.value):
                     # cut off after . which is zero anyway
                     val = str(int(value.value))
